@@ -2,8 +2,8 @@ package mon
 
 import (
 	"fmt"
-	"regexp"
 	"math/big"
+	"regexp"
 	"sort"
 	"strings"
 	"time"
